@@ -2,6 +2,7 @@
 
 kinds:
   graph    canonical object graph of a Processor before / after a copy site (sharing pattern)
+  sitefail a copy site asked to apply a rejected value: it raises and leaves the caller's objects alone
   observe  behavioural isolation of Observation runs against standalone exposures
   fitness  ModelFittingDataTree.fitness called directly, against standalone exposures
 """
@@ -30,7 +31,17 @@ MAX_NODES = 1500
 # building the caller's objects
 # ----------------------------------------------------------------------------------------------
 def build(spec):
-    """-> (detector, pipeline, readout); fresh objects, nothing shared between two builds."""
+    """-> (detector, pipeline, readout); fresh objects, nothing shared between two builds.
+
+    Optional spec keys (all deterministic, so that two builds of the same spec are equal in value):
+      ndarray_args  ["<group>.<model>.<arg>"]  the (list) argument is given as a numpy array
+      tuple_args    ["<group>.<model>.<arg>"]  the (list of lists) argument is given as a tuple of lists
+      memory        x        an ad-hoc attribute on the detector (read by verif_probes.stateful)
+      real_memory   {k: x}   entries of the detector's own `_memory` dict (arrays)
+      persistence   x        a SimplePersistence object with trapped charge x in every pixel
+      pre_exposure  n        the caller has already used these very objects for n plain exposures (which work in
+                             place): buckets hold arrays, memory / trapped charge / list arguments have moved on
+    """
     from harness import pyx
 
     spec = copy.deepcopy(spec)
@@ -43,9 +54,41 @@ def build(spec):
         group, mname, arg = ref.split(".")
         model = getattr(getattr(pipe, group), mname)
         model.arguments[arg] = np.array(model.arguments[arg], dtype=float)
+    for ref in spec.get("tuple_args") or []:
+        group, mname, arg = ref.split(".")
+        model = getattr(getattr(pipe, group), mname)
+        model.arguments[arg] = tuple(model.arguments[arg])
     if spec.get("memory") is not None:
         setattr(det, "_verif_memory", spec["memory"])
+    for k, v in (spec.get("real_memory") or {}).items():
+        det._memory[k] = np.array([float(v)], dtype=float)
+    if spec.get("persistence") is not None:
+        from pyxel.data_structure import SimplePersistence
+
+        geo = det.geometry
+        pers = SimplePersistence(trap_time_constants=[1.0], trap_densities=[0.5], geometry=(geo.row, geo.col))
+        pers.trapped_charge_array = np.full((1, geo.row, geo.col), float(spec["persistence"]), dtype=float)
+        det.persistence = pers
+    for _ in range(int(spec.get("pre_exposure") or 0)):
+        pyx.run_exposure(det, pipe, readout)
     return det, pipe, readout
+
+
+def apply_params_direct(det, pipe, params):
+    """Apply a run's parameter values on freshly built objects WITHOUT Processor.set (plain item / attribute
+    assignment of an independent copy of the value)."""
+    for key, value in params.items():
+        parts = key.split(".")
+        if parts[0] == "pipeline" and len(parts) == 5 and parts[3] == "arguments":
+            model = getattr(getattr(pipe, parts[1]), parts[2])
+            model.arguments[parts[4]] = copy.deepcopy(value)
+        elif parts[0] == "detector" and len(parts) == 3 and parts[1] in ("characteristics", "environment"):
+            getattr(det, parts[1])                       # the section must exist
+            if not hasattr(type(getattr(det, parts[1])), parts[2]):
+                raise KeyError(key)
+            setattr(getattr(det, parts[1]), parts[2], value)
+        else:
+            raise KeyError(key)
 
 
 def _spec_with_params(spec, params):
@@ -72,14 +115,14 @@ def _spec_with_params(spec, params):
 
 
 def build_with_params(spec, params):
+    if spec.get("pre_exposure") or spec.get("direct_params"):
+        # the history of the caller's objects comes first, the run's values are applied on the result
+        det, pipe, readout = build(spec)
+        apply_params_direct(det, pipe, params)
+        return det, pipe, readout
     spec2, rest = _spec_with_params(spec, params)
     det, pipe, readout = build(spec2)
-    for key, value in rest.items():
-        parts = key.split(".")
-        if parts[0] == "detector" and len(parts) == 3 and parts[1] in ("characteristics", "environment"):
-            setattr(getattr(det, parts[1]), parts[2], value)
-        else:
-            raise KeyError(key)
+    apply_params_direct(det, pipe, rest)
     return det, pipe, readout
 
 
@@ -331,6 +374,10 @@ def mem_owners(o, keep):
 # value snapshot
 # ----------------------------------------------------------------------------------------------
 SNAP_SKIP_NAMES = ("_log", "_func")
+# not contents a run can depend on: caches, the name of the running model, debug data, and the buckets / scene / readout
+# clock that exposure.run_pipeline resets before the first step of EVERY run (detector.empty(), set_readout)
+LOST_IGNORED = ("_numbytes", "current_running_model_name", "_intermediate", "_scene", "_photon", "_charge", "_pixel",
+                "_signal", "_image", "_readout_properties")
 
 
 def _crc(s) -> int:
@@ -588,12 +635,75 @@ def do_graph(p, keep):
                             seen.add((i, j))
                             shared.append([i, n0 + j])
     s1 = snapshot(proc)
+    # completeness of the copy: the copy's detector holds, value for value, what the caller's detector holds
+    # (memory, trapped charge, bucket contents included); caches and the name of the running model are not contents
+    lost = []
+    if site_error is None and new is not None and not any(k.startswith("detector.") for k in params):
+        a = snapshot(proc.detector, prefix="detector")
+        b = snapshot(new.detector, prefix="detector")
+        lost = [q for q in snap_diff(a, b) if not any(
+            q.startswith("detector." + t) for t in LOST_IGNORED)]
     res.update({
         "n0": n0, "orig": g0, "copy": g1, "copy_root": copy_root, "shared_mem": sorted(shared),
+        "lost": lost[:10],
         "orig_changed": snap_diff(s0, s1)[:10], "site_error": site_error,
         "types": sorted({type(x).__name__ for x in list(order0) + list(order1)}),
     })
     return res
+
+
+# ----------------------------------------------------------------------------------------------
+# kind "sitefail": a copy site is asked to apply a value that a setter rejects
+# ----------------------------------------------------------------------------------------------
+def do_sitefail(p, keep):
+    from pyxel.observation import Observation, ParameterValues
+    from pyxel.pipelines import Processor
+    from harness import pyx
+
+    spec = p["spec"]
+    site = p["site"]
+    params = dict(p.get("params") or {})
+    det, pipe, readout = build(spec)
+    obs = None
+    if p.get("with_obs"):
+        obs = Observation(parameters=[ParameterValues(key=k, values=[v, v]) for k, v in params.items()
+                                      if _is_scalar(v)], readout=readout)
+    proc = Processor(det, pipe, observation_mode=obs)
+    keep.append(proc)
+    mf = None
+    if site == "update_processor":
+        geo = det.geometry
+        mf = _make_fitting(proc, [(k, 0, 1000) for k in params], pyx.make_readout(times=[1.0]), geo.row, geo.col, 0.0)
+        keep.append(mf)
+    s0 = _snap_many(detector=det, pipeline=pipe, readout=readout)
+    raised = None
+    new = None
+    try:
+        if site == "replace":
+            new = proc.replace(params)
+        elif site == "create_new_processor":
+            from pyxel.observation.misc import create_new_processor
+            new = create_new_processor(processor=proc, parameter_dict=params)
+        elif site == "build_processors":
+            from pyxel.calibration.fitting_datatree import build_processors
+            new = build_processors(processor=proc,
+                                   arguments=[ParameterValues(key=k, values=[v, v]) for k, v in params.items()])[0]
+        elif site == "update_processor":
+            new = mf.update_processor(parameter=np.array(list(params.values()), dtype=float), processor=proc)
+        else:
+            return {"error": "unknown site %r" % (site,)}
+    except Exception as ex:  # noqa: BLE001
+        raised = _exc(ex)
+    keep.append(new)
+    s1 = _snap_many(detector=det, pipeline=pipe, readout=readout)
+    std_raised = None
+    try:
+        d2, p2, _ = build(spec)
+        apply_params_direct(d2, p2, params)
+    except Exception as ex:  # noqa: BLE001
+        std_raised = _exc(ex)
+    return {"raised": raised, "std_raised": std_raised, "changed": snap_diff(s0, s1)[:10],
+            "returned_caller": new is proc}
 
 
 # ----------------------------------------------------------------------------------------------
@@ -832,6 +942,8 @@ def handle(p):
     try:
         if kind == "graph":
             return do_graph(p, keep)
+        if kind == "sitefail":
+            return do_sitefail(p, keep)
         if kind == "observe":
             return do_observe(p, keep)
         if kind == "fitness":
